@@ -431,3 +431,7 @@ def _directed(ctx):
 
 
 DIRECTED = {"linking-rules": _directed}
+from ..suite_leg import make as _suite_leg  # noqa: E402
+
+DIRECTED["suite-under-monitors"] = _suite_leg("C13")
+
